@@ -189,7 +189,7 @@ COMPOSITES = {
         "Circuit.cups(qubit @ bit, bit @ qubit)", "Circuit.caps(bit @ qubit, qubit @ bit)",
         "Circuit.cups(qubit @ qubit, qubit @ qubit)", "Circuit.caps(bit @ bit, bit @ bit)",
         "CX.transpose()", "(Ket(0) @ H >> CX).transpose(left=True)", "Ket(0, 1).init_and_discard()",
-        "(H @ Rz(0.3) >> CX).foliation()", "(Measure() @ H).init_and_discard()", "(H @ X >> CX).bubble() @ Ket(0)",
+        "(H @ Rz(0.3) >> CX).foliation()", "(Measure() @ H).init_and_discard()",
     ],
     "zx": [
         "Diagram.swap(2, 1)", "Diagram.swap(1, 2)", "Diagram.swap(PRO(2), PRO(2))", "Diagram.permutation([2, 0, 1])",
